@@ -355,8 +355,11 @@ func (l *BlockchainRpcTxWatcher) observationLoop(
 			}
 
 			// Now check if we got enough confirmations. We use first seen - 1
-			// as this is the block the tx was confirmed in the first time.
-			if current-(firstSeen-1) >= l.requiredConfs {
+			// as this is the block the tx was confirmed in the first time. The
+			// chain can have advanced since we got notified of `current`: a tx
+			// first seen above it has no confirmations from our point of view
+			// yet (and the subtraction below would wrap around).
+			if firstSeen <= current && current-(firstSeen-1) >= l.requiredConfs {
 				// We finally made it, enough confirmations and below the safety
 				// limit!
 				l.callbackAndLog(swapId, rawTx, nil)
